@@ -32,7 +32,7 @@ type Server struct {
 	settings              serverSettings
 	settingsMu            sync.RWMutex
 	supportsConfiguration bool
-	payeeTemplatesCache   sync.Map // map[protocol.DocumentURI]map[string][]analyzer.PostingTemplate
+	payeeTemplatesCache   sync.Map // map[protocol.DocumentURI]payeeTemplatesEntry
 
 	// publishMu guards generations and serialises the check-and-publish step of
 	// background diagnostics, so that results computed from a superseded
